@@ -101,7 +101,10 @@ def run(module, cfg, workers=1, env=None, timeout=3600, simulate=None, depth=Non
     os.makedirs(WORK, exist_ok=True)
     meta = tempfile.mkdtemp(prefix='tlc_', dir=WORK)
     cfgp = cfg if os.path.isabs(cfg) else os.path.join(MC, cfg)
-    cmd = ['java', '-XX:+UseParallelGC', '-Xmx' + heap, '-Xss16m']
+    if workers == 1:
+        cmd = ['java', '-XX:+UseSerialGC', '-XX:TieredStopAtLevel=1', '-Xmx' + ('2g' if heap == '4g' else heap), '-Xss16m']
+    else:
+        cmd = ['java', '-XX:+UseParallelGC', '-XX:ParallelGCThreads=%d' % min(8, workers), '-Xmx' + heap, '-Xss16m']
     if dfs:
         cmd.append('-Dtlc2.tool.queue.IStateQueue=StateDeque')
     cmd += ['-cp', JAR, 'tlc2.TLC', '-workers', str(workers), '-metadir', meta, '-noGenerateSpecTE',
